@@ -1938,6 +1938,8 @@ class Cursor(object):
             collection._get_dataset, spec, sort, projection, dict)
         # pymongo limit defaults to 0, returning everything
         self._limit = limit if limit != 0 else None
+        # an empty slice (cursor[2:2]) selects nothing, whereas a limit of 0 means no limit
+        self.__empty = False
         self._collation = collation
         self.session = session
         self.rewind()
@@ -1954,7 +1956,9 @@ class Cursor(object):
             self._results = results
         if with_limit_and_skip:
             results = self._results[self._skip:]
-            if self._limit:
+            if self.__empty:
+                results = []
+            elif self._limit:
                 results = results[:abs(self._limit)]
         else:
             results = self._results
@@ -1967,6 +1971,7 @@ class Cursor(object):
         cursor = Cursor(self.collection,
                         self._spec, self._sort, self._projection, self._skip, self._limit)
         cursor._factory = self._factory
+        cursor.__empty = self.__empty
         return cursor
 
     def __next__(self):
@@ -2005,6 +2010,7 @@ class Cursor(object):
 
     def limit(self, count):
         self._limit = count if count != 0 else None
+        self.__empty = False
         return self
 
     def batch_size(self, count):
@@ -2046,6 +2052,7 @@ class Cursor(object):
                 raise IndexError('Cursor instances do not support slice steps')
 
             skip = 0
+            empty = False
             if index.start is not None:
                 if index.start < 0:
                     raise IndexError('Cursor instances do not support'
@@ -2058,12 +2065,13 @@ class Cursor(object):
                     raise IndexError('stop index must be greater than start'
                                      'index for slice %r' % index)
                 if limit == 0:
-                    self.__empty = True
+                    empty = True
             else:
                 limit = 0
 
             self._skip = skip
             self._limit = limit
+            self.__empty = empty
             return self
         if not isinstance(index, int):
             raise TypeError("index '%s' cannot be applied to Cursor instances" % index)
